@@ -369,6 +369,19 @@ def cases(tier, seed):
                 if origin.startswith("tainti"):
                     i += 1
                     yield {"id": i, "mode": mode, "ttypes": tts, "pos": p, "kind": k, "origin": origin + "+turn", "text": text, "markers": markers}
+    # 1d. the same hostile completion in TWO turns of one conversation (turn 0 and turn 2 of four), v1 pipelines
+    for mode in ("v1_dialog", "v1_single", "v1_multi", "v1_general", "v1_passthrough"):
+        kinds_ = MODES[mode][3]
+        for tt0 in sorted(kinds_):
+            tts = [tt0] * 4
+            pos = _positions(mode, tts)
+            for p, (t, tt, k) in enumerate(pos):
+                if t != 0:
+                    continue
+                texts = [x for j, x in enumerate(_texts_for(k, False)) if x[0].startswith("corpus") and (j + seed) % (5 if quick else 1) == 0]
+                for origin, text, markers in texts:
+                    i += 1
+                    yield {"id": i, "mode": mode, "ttypes": tts, "pos": p, "kind": k, "origin": origin + "+again", "text": text, "markers": markers, "again": [2]}
     # 2. sampled multi-turn conversations: corpus, carriers and mutations at a random position
     n1, n2 = (900, 140) if quick else (14000, 900)
     for ver, n in (("v1", n1), ("v2", n2)):
@@ -461,6 +474,7 @@ class HApp:
     def reset(self, pos, text, tag):
         self.later_turns_compared = 0
         self.later_turns_emptied = 0
+        self.again_turns, self.again_kind, self.again_done = (), None, set()
         self.hpos, self.htext, self.tag = pos, text, tag
         self.ncalls = 0
         self.kinds_seen = []
@@ -481,6 +495,10 @@ class HApp:
         if kind == "general" and self.mode == "v1_passthrough":
             kind = "passthrough"
         self.kinds_seen.append(kind)
+        if self.again_turns and self.turn in self.again_turns and kind == self.again_kind and self.turn not in self.again_done:
+            # the same hostile completion once more, at the first call of that kind in a later turn
+            self.again_done.add(self.turn)
+            return self.htext
         if idx == self.hpos:
             self.hit_kind = kind
             return self.htext
@@ -544,6 +562,8 @@ def play(app, case, cid):
     from . import steps
 
     app.reset(case["pos"], case["text"], cid)
+    if case.get("again"):
+        app.again_turns, app.again_kind = tuple(case["again"]), case["kind"]
     app.log.clear()
     app.prompts_by_turn = {}
     out = []
